@@ -150,16 +150,33 @@ func c16R3(c *Ctx, r *Report) {
 	const rule = "C16-R3"
 	r.SetFloor(rule, 2)
 	// GetNextBlock: unsigned bound before narrowing
-	if fn := c.Func("container.(*Container).GetNextBlock"); fn == nil {
-		r.Undecided(rule, "container.(*Container).GetNextBlock", "anchor function missing")
-	} else {
+	for _, fname := range []string{"container.(*Container).GetNextBlock", "container.(*Container).GetNextBlockAsContainer"} {
+		fn := c.Func(fname)
+		if fn == nil {
+			r.Undecided(rule, fname, "anchor function missing")
+			continue
+		}
 		isSize := func(v ssa.Value) bool {
 			ex, ok := v.(*ssa.Extract)
 			if !ok || ex.Index != 0 {
 				return false
 			}
-			_, isN := isCallTo(ex, "container.Container.GetNextN64")
+			_, isN := isCallTo(ex, "container.Container.GetNextN64", "formats/varint.Unpack64")
 			return isN
+		}
+		heldLength := func(v ssa.Value) bool {
+			// Length(), or Length() minus the size of the length prefix
+			for _, l := range c.Leaves(v) {
+				if call, ok := l.(*ssa.Call); ok && strings.HasSuffix(calleeName(&call.Call), "container.Container.Length") {
+					return true
+				}
+				if bo, ok := l.(*ssa.BinOp); ok && bo.Op == token.SUB {
+					if call, ok := bo.X.(*ssa.Call); ok && strings.HasSuffix(calleeName(&call.Call), "container.Container.Length") {
+						return true
+					}
+				}
+			}
+			return false
 		}
 		bound := func(truthy bool, op token.Token) Guard {
 			return Guard{Name: "blockSize (unsigned) <= Length()", Truthy: truthy, Match: func(b ssa.Value) bool {
@@ -170,7 +187,7 @@ func c16R3(c *Ctx, r *Report) {
 				if !isSize(bo.X) {
 					return false
 				}
-				return hasOrigin(c.Origins(bo.Y), "call:container.Container.Length")
+				return heldLength(bo.Y)
 			}}
 		}
 		k := 0
